@@ -1657,7 +1657,9 @@ class _Serializer:
             meth: Callable[[_Serializer, object], None] | None = getattr(
                 self.__class__, methodname, None
             )
-            if meth is None:
+            # dispatch is by name: make sure a subclass that merely shares
+            # the name of a supported type is not taken for that type
+            if meth is None or not (tp.__module__ == "builtins" or tp is Channel):
                 raise DumpError(f"can't serialize {tp}") from None
             dispatch = self._dispatch[tp] = meth
         dispatch(self, obj)
